@@ -225,7 +225,12 @@ where
     type Stream = Self;
 
     fn into_parts(self) -> (Vector<VectorDiffContainerStreamElement<S>>, Self::Stream) {
-        (self.buffered_vector.clone(), self)
+        let values = match self.count {
+            Some(count) => self.buffered_vector.clone().skeep(count),
+            None => Vector::new(),
+        };
+
+        (values, self)
     }
 }
 
